@@ -461,6 +461,16 @@ func runCursorOn[T any](c CursorCase, o *vk.Obs, kit elem.Kit[T]) string {
 			curs[act] = r.t.Cursor(tr.mk(Key{K: k.K}))
 			pos[act] = r.sh.byK[k.K]
 			cc, np, ret = curs[act], pos[act], curs[act]
+		case "root": // this cursor and (when A is odd) the other one start afresh from Tree.Root
+			curs[act], pos[act] = r.t.Root(), r.sh.root
+			if mv.A%2 == 1 {
+				if len(curs) < 2 {
+					curs, pos = append(curs, r.t.Root()), append(pos, r.sh.root)
+				} else {
+					curs[1-act], pos[1-act] = r.t.Root(), r.sh.root
+				}
+			}
+			cc, np, ret = curs[act], pos[act], curs[act]
 		case "clone":
 			cl := cc.Clone()
 			if !cc.Valid() {
